@@ -10,7 +10,9 @@ import (
 	"runtime"
 	"runtime/metrics"
 	"strings"
+	"syscall"
 	"time"
+	"unsafe"
 
 	"github.com/philpearl/plenc/plenccodec"
 	"github.com/philpearl/plenc/plenccore"
@@ -896,6 +898,8 @@ type scalePoint struct {
 func ScaleJobs() int { return 2 * len(scaleTypes) }
 
 func (s *StoreSim) ScaleProbe(seed uint64, idx int, thorough bool) (*Violation, *StoreCase) {
+	runtime.LockOSThread() // the CPU-time clock is per OS thread
+	defer runtime.UnlockOSThread()
 	cfg := world.InstCfg{}
 	if idx%2 == 1 {
 		cfg = world.InstCfg{ProtoArrays: true, ProtoTime: true}
@@ -1061,7 +1065,16 @@ func (s *StoreSim) ScaleProbe(seed uint64, idx int, thorough bool) (*Violation, 
 	return nil, nil
 }
 
-func nanotime() int64 { return time.Now().UnixNano() }
+// nanotime is the CPU time consumed by the calling OS thread
+// (CLOCK_THREAD_CPUTIME_ID), not wall time: what other processes do to the
+// machine barely moves it. The store worker runs locked to one OS thread.
+func nanotime() int64 {
+	var ts syscall.Timespec
+	if _, _, e := syscall.Syscall(syscall.SYS_CLOCK_GETTIME, 3, uintptr(unsafe.Pointer(&ts)), 0); e != 0 {
+		return time.Now().UnixNano()
+	}
+	return ts.Sec*1e9 + ts.Nsec
+}
 
 // remeasure decodes input reps times and returns the best wall time.
 func (s *StoreSim) remeasure(rd *storeReader, cfg world.InstCfg, input []byte, reps int) int64 {
